@@ -1661,7 +1661,9 @@ func (self *ReplicationAckDB) ProcessLeaderPushLock(glockIndex uint16, aofLock *
 		return nil
 	}
 	self.ackGlocks[glockIndex].Lock()
-	if self.manager.slock.state != STATE_LEADER {
+	if self.manager.slock.state != STATE_LEADER || (aofLock.AofFlag&AOF_FLAG_UPDATED == 0 && lock.ackCount == 0xff) {
+		// not leader any more, or the pending hold was already rolled back
+		// (timed out / released) before its record reached the log
 		self.ackGlocks[glockIndex].Unlock()
 		lockManager := lock.manager
 		lockManager.lockDb.DoAckLock(lock, false)
